@@ -172,6 +172,39 @@ def coq_property(pid, allowed_axioms=()):
     return res
 
 
+def coqchk_property(pid, allowed_axioms=()):
+    """thorough tier: the independent checker re-checks the property's compiled cone and lists
+    the axioms of everything loaded (a superset of what the theorems depend on)"""
+    cmd = ["coqchk", "-o", "-silent", "-Q", ".", "KD", "KD.Properties." + pid]
+    pr = subprocess.run(cmd, cwd=COQ, stdout=subprocess.PIPE, stderr=subprocess.STDOUT, timeout=1800)
+    out = pr.stdout.decode("utf-8", "replace")
+    res = {"cmd": "cd coq && " + " ".join(cmd), "ok": pr.returncode == 0, "axioms": [], "problems": []}
+    if pr.returncode != 0:
+        res["problems"].append("coqchk failed: " + out[-800:])
+        return res
+    m = re.search(r"\* Axioms:(.*?)\n\s*\n", out, re.S)
+    if m:
+        res["axioms"] = [a.strip() for a in m.group(1).split("\n") if a.strip() and a.strip() != "<none>"]
+    allowed = {"Coq." + a if not a.startswith("Coq.") else a for a in _qualified(allowed_axioms)}
+    extra = [a for a in res["axioms"] if a not in allowed]
+    if extra:
+        res["problems"].append("coqchk lists axioms outside the allowlist: %s" % extra)
+    for key in ("type-in-type", "unsafe (co)fixpoints", "positivity is assumed"):
+        mm = re.search(re.escape(key) + r":\s*(.*)", out)
+        if mm and "<none>" not in mm.group(1):
+            res["problems"].append("coqchk: %s: %s" % (key, mm.group(1)))
+    return res
+
+
+def _qualified(names):
+    q = {"Classical_Prop.classic": "Coq.Logic.Classical_Prop.classic",
+         "ClassicalDedekindReals.sig_not_dec": "Coq.Reals.ClassicalDedekindReals.sig_not_dec",
+         "ClassicalDedekindReals.sig_forall_dec": "Coq.Reals.ClassicalDedekindReals.sig_forall_dec",
+         "FunctionalExtensionality.functional_extensionality_dep":
+             "Coq.Logic.FunctionalExtensionality.functional_extensionality_dep"}
+    return [q.get(n, n) for n in names]
+
+
 # ---------------------------------------------------------------- OCaml driver
 def build_model_run():
     """Compiles the extracted model (coq/model.ml, produced by Extract/Extract.v) with the
